@@ -537,12 +537,12 @@ def gen_trees(ctx):
         p = pool(name, rng, 2)
         small = sorted(v for v in {0, 1, -1, 2, lo, hi, bits - 1, bits, rng.randint(lo, hi)} if lo <= v <= hi)
         for op in opn:
-            vals = p if op in ('+', '-', '*', '%', '<<', '>>') else small
+            vals = p if op in ('+', '-', '*', '%', '<<', '>>') else [v for v in (0, 1, lo, hi) if lo <= v <= hi]
             for a in vals:
                 for b in vals:
                     if op == '<<' and b > 4096:
                         continue
-                    if len(vals) > 12 and rng.random() < 0.8:
+                    if len(vals) > 12 and rng.random() < 0.93:
                         continue
                     out.append(('bin', ('binop', ('const', a, name), op, ('const', b, name), name)))
         # malformed stream: constants outside the range of their type
@@ -550,7 +550,7 @@ def gen_trees(ctx):
             for op in ('+', '%', '>>', '*'):
                 out.append(('bin_out_of_range', ('binop', ('const', a, name), op, ('const', b, name), name)))
         for dst in INT_TYPES + ['ptr', 'f64']:
-            for v in small + [hi + 1, lo - 1]:
+            for v in [0, 1, lo, hi, rng.randint(lo, hi), hi + 1, lo - 1]:
                 out.append(('cast', ('cast', ('const', v, name), dst)))
         for op1 in ('+', '-', '*'):
             for op2 in ('+', '-', '*', '%'):
@@ -621,11 +621,11 @@ def helper_cases(ctx, gen):
                 recs.append((fn, [v, name]))
         for code, key, _m, origin in gen['table']:
             f = cf.ConstantFolder().ops[key]
-            bs = [0, 1, -1, 2, 7, ty.bits - 1, ty.bits, ty.bits + 1, -ty.bits, rng.randint(lo, hi)]
-            for a in [0, 1, -7 if lo < 0 else 7, lo, hi, rng.randint(lo, hi)]:
+            bs = [0, 1, -1, 7, ty.bits - 1, ty.bits, ty.bits + 1, rng.randint(lo, hi)]
+            for a in [1, -7 if lo < 0 else 7, lo, rng.randint(lo, hi)]:
                 for b in bs:
-                    if key == '<<' and b > 4096:
-                        continue       # neither CPython nor coqc should build a 2^(2^31) integer
+                    if key in ('<<', '>>') and b > 4096:
+                        continue       # neither CPython nor coqc should build a 2^(2^31) integer / iterate 2^62 halvings
                     try:
                         r = OkV(f(ty, a, b))
                     except Exception:   # noqa: BLE001
@@ -634,7 +634,7 @@ def helper_cases(ctx, gen):
                     recs.append(('ops[%s]' % key, [name, a, b]))
         if hasattr(cf, 'is_defined') and 'is_defined' in infos:
             for op in ir.Binop.ops:
-                for b in [0, 1, -1, ty.bits - 1, ty.bits, ty.bits + 1, lo, hi]:
+                for b in [0, -1, ty.bits - 1, ty.bits, hi]:
                     r = OkV(bool(cf.is_defined(op, ty, b)))
                     term = 'is_defined %d %s %s' % (list(ir.Binop.ops).index(op), flat(name), wrapt(b))
                     if infos['is_defined'].pure:
@@ -667,9 +667,16 @@ WITNESSES = [
 
 
 def run(ctx):
+    import time
     ir, cf = load_impl()
     opn = list(ir.Binop.ops)
     gen = None
+    tm = ctx.cov['stages'].setdefault('wall_s', {})
+    t0 = [time.time()]
+
+    def lap(name):
+        tm[name] = round(time.time() - t0[0], 1)
+        t0[0] = time.time()
     try:
         gen = regen(ctx)
     except TieBroken:
@@ -681,6 +688,7 @@ def run(ctx):
         ok, _ = ctx.build(['Proofs/C38_constfold.vo'])
         if ok:
             ctx.check_props('Props/C38.v')
+    lap('regen_build_props')
     # ---- correspondence: Model.ConstFold (+ Gen) vs the real pass
     if gen is not None and ctx.build(['Model/ConstFold.vo', 'Lib/Val.vo'])[0]:
         trees = gen_trees(ctx)
@@ -706,6 +714,7 @@ def run(ctx):
                 ctx.log('model/pass disagree on', recs[i][1], 'pass=', 'exception' if recs[i][2] is Internal else recs[i][2].v)
             ctx.failed_stages.append(('correspondence', 'Model.ConstFold disagrees with ConstantFolder().run on %d of %d cases, first: %r'
                                       % (len(bad), len(cases), recs[bad[0]][1])))
+        lap('pass_correspondence')
         hcases, hrecs = helper_cases(ctx, gen)
         ctx.cov['stages']['helper_cases'] = len(hcases)
         ctx.cov['distinct_nontrivial'] += sum(1 for (c, r) in hcases if r is not Internal)
@@ -715,6 +724,7 @@ def run(ctx):
                 ctx.log('generated model/implementation disagree on', hrecs[i])
             ctx.failed_stages.append(('correspondence', 'Gen.constfold disagrees with constantfolding.py on %d cases, first: %r'
                                       % (len(bad), hrecs[bad[0]])))
+    lap('helper_correspondence')
     # ---- frozen model vs an unrepaired tree: only while the tree still behaves as found
     asfound = not hasattr(cf, 'is_defined') and impl_pass(WITNESSES[0][1]) is not Internal \
         and impl_pass(WITNESSES[0][1]).v[:2] == (1, 1)
@@ -726,6 +736,7 @@ def run(ctx):
             ctx.failed_stages.append(('correspondence', 'Model.ConstFoldOrig disagrees with the unrepaired pass on witnesses %r' % bad))
     # ---- reference oracle sweep: always; deep when a stage failed or tier is thorough
     n = oracle_sweep(ctx, (not ctx.quick()) or bool(ctx.failed_stages))
+    lap('oracle_sweep')
     ctx.cov['stages']['oracle_sweep'] = n
     ctx.cov['evaluations'] += n
     ctx.cov['exhaustive'] = False
